@@ -167,4 +167,176 @@ theorem distributeStubs_ok {chain pool samples : Nat} : ∀ (ps : List (Addr × 
         unfold fullSum at i2
         exact ⟨i1, by omega, by omega, i4, by omega, i6.trans hcd⟩
 
+/-- the recorded percents of a committee never exceed 100 per sample -/
+def PercentsOK (L : Ledger) : Prop := ∀ d ∈ L.committeesData, percentSum d.percents ≤ 100 * d.samples
+
+/-- the end of one committee's distribution burns exactly `pool - tot` when at most the pool was distributed -/
+theorem distributeFinish_burns {L1 L' : Ledger} {d : CommitteeData} {pool tot : Nat}
+    (hp : poolGet L1 d.chainId = pool) (hle : tot ≤ pool) (hlt : pool < U64)
+    (h : distributeFinish L1 d pool tot = .ok L') :
+    L'.supply.total + (pool - tot) = L1.supply.total ∧ bal L' + pool = bal L1 := by
+  have hburn : (pool + U64 - tot) % U64 = pool - tot := by
+    have : pool + U64 - tot = (pool - tot) + U64 := by omega
+    rw [this, Nat.add_mod_right, Nat.mod_eq_of_lt (by omega)]
+  unfold distributeFinish at h
+  rw [hburn] at h
+  generalize pool - tot = B at h ⊢
+  obtain ⟨L2, h2, h⟩ := bind_ok h
+  · obtain rfl := Except.ok.inj h
+    obtain ⟨hx, rfl⟩ := subFromTotal_ok h2
+    have s := putCommitteeData_sameBal (poolPut { L1 with supply := { L1.supply with total := L1.supply.total - B } } d.chainId 0)
+      { chainId := d.chainId, lastRootHeight := d.lastRootHeight, lastChainHeight := d.lastChainHeight }
+    have hpp := poolSum_poolPut { L1 with supply := { L1.supply with total := L1.supply.total - B } } d.chainId 0
+    have hpg : poolGet { L1 with supply := { L1.supply with total := L1.supply.total - B } } d.chainId = pool := hp
+    rw [hpg] at hpp
+    have e1 := s.bal_eq; have e2 := s.total
+    have e3 : (poolPut { L1 with supply := { L1.supply with total := L1.supply.total - B } } d.chainId 0).supply.total = L1.supply.total - B := rfl
+    have ea : accSum (poolPut { L1 with supply := { L1.supply with total := L1.supply.total - B } } d.chainId 0) = accSum L1 := rfl
+    have es : stakeSum (poolPut { L1 with supply := { L1.supply with total := L1.supply.total - B } } d.chainId 0) = stakeSum L1 := rfl
+    have ep : poolSum { L1 with supply := { L1.supply with total := L1.supply.total - B } } = poolSum L1 := rfl
+    rw [ep] at hpp
+    refine ⟨by rw [e2, e3]; omega, ?_⟩
+    rw [e1]
+    unfold bal
+    rw [ea, es]
+    omega
+
+/-- one committee: pays out at most the pool and burns exactly the remainder -/
+theorem distributeFor_burns {L L' : Ledger} {d : CommitteeData} (hi : InvSupply L) (hd : percentSum d.percents ≤ 100 * d.samples)
+    (h : distributeFor L d = .ok L') : Burns L L' := by
+  unfold distributeFor at h
+  split at h
+  · obtain rfl := Except.ok.inj h; exact Burns.refl L
+  · split at h
+    · exact absurd h (by intro h; cases h)
+    · next r hds =>
+      obtain ⟨tot, L1⟩ := r
+      have hfs := Nat.le_trans (fullSum_le d.percents (poolGet L d.chainId) d.samples) (fullOf_le_pool hd)
+      have hpl := poolGet_le L d.chainId
+      obtain ⟨i1, i2⟩ := hi
+      obtain ⟨_, htot, ht, hp, hb, _⟩ := distributeStubs_ok (chain := d.chainId) d.percents L L1 0 tot rfl (by
+        unfold bal at i1 ⊢; omega) hds
+      have hlt : poolGet L d.chainId < U64 := by unfold bal at i1; omega
+      obtain ⟨f1, f2⟩ := distributeFinish_burns (L1 := L1) hp (by omega) hlt h
+      exact ⟨poolGet L d.chainId - tot, by omega, by omega⟩
+
+
+/-! ### the committee data during distribution (for `PercentsOK`) -/
+
+theorem updateValidatorStake_committeesData {L L' : Ledger} {a : Addr} {val : Validator} {cs : List Nat} {amt : Nat}
+    (h : updateValidatorStake L a val cs amt = .ok L') : L'.committeesData = L.committeesData := by
+  unfold updateValidatorStake at h
+  obtain ⟨La, ha, h⟩ := bind_ok h
+  rw [addToStaked_ok ha] at h
+  dsimp only at h
+  split at h
+  · obtain ⟨Lb, hb, h⟩ := bind_ok h
+    obtain ⟨Lc, hc, h⟩ := bind_ok h
+    obtain rfl := Except.ok.inj h
+    rw [addToDelegated_ok hb] at hc
+    exact (sameCore_updateDelegations hc).committeesData
+  · obtain ⟨Lc, hc, h⟩ := bind_ok h
+    obtain rfl := Except.ok.inj h
+    exact (sameCore_updateCommittees hc).committeesData
+
+theorem distributeReward_committeesData {L L1 : Ledger} {a : Addr} {p pool samples d : Nat}
+    (h : distributeReward L a p pool samples = .ok (d, L1)) : L1.committeesData = L.committeesData := by
+  unfold distributeReward at h
+  dsimp only at h
+  split at h
+  · split at h
+    · exact absurd h (by intro h; cases h)
+    · next L' h1 =>
+      simp only [Except.ok.injEq, Prod.mk.injEq] at h
+      obtain ⟨_, rfl⟩ := h
+      obtain ⟨acc, rfl, _⟩ := accountAdd_ok h1; rfl
+  · split at h
+    · split at h
+      · exact absurd h (by intro h; cases h)
+      · next L' h1 =>
+        simp only [Except.ok.injEq, Prod.mk.injEq] at h
+        obtain ⟨_, rfl⟩ := h
+        exact updateValidatorStake_committeesData h1
+    · split at h
+      · exact absurd h (by intro h; cases h)
+      · next L' h1 =>
+        simp only [Except.ok.injEq, Prod.mk.injEq] at h
+        obtain ⟨_, rfl⟩ := h
+        obtain ⟨acc, rfl, _⟩ := accountAdd_ok h1; rfl
+
+theorem distributeStubs_committeesData {pool samples : Nat} : ∀ (ps : List (Addr × Nat)) (L L1 : Ledger) (tot tot' : Nat),
+    distributeStubs L pool samples ps tot = .ok (tot', L1) → L1.committeesData = L.committeesData
+  | [], L, L1, tot, tot', h => by
+    simp only [distributeStubs, Except.ok.injEq, Prod.mk.injEq] at h
+    obtain ⟨_, rfl⟩ := h; rfl
+  | (a, p) :: rest, L, L1, tot, tot', h => by
+    unfold distributeStubs at h
+    split at h
+    · exact absurd h (by intro h; cases h)
+    · next d L2 h1 =>
+      have e1 := distributeReward_committeesData h1
+      split at h
+      · split at h
+        · exact absurd h (by intro h; cases h)
+        · exact (distributeStubs_committeesData rest L2 L1 _ tot' h).trans e1
+      · exact (distributeStubs_committeesData rest L2 L1 _ tot' h).trans e1
+
+/-- after one committee's distribution every committee-data entry is an old one or has no percents left -/
+theorem distributeFor_committeesData {L L' : Ledger} {d : CommitteeData} (h : distributeFor L d = .ok L') :
+    ∀ e ∈ L'.committeesData, e ∈ L.committeesData ∨ e.percents = [] := by
+  unfold distributeFor at h
+  split at h
+  · obtain rfl := Except.ok.inj h; intro e he; exact Or.inl he
+  · split at h
+    · exact absurd h (by intro h; cases h)
+    · next r hds =>
+      obtain ⟨tot, L1⟩ := r
+      have hcd := distributeStubs_committeesData d.percents L L1 0 tot hds
+      unfold distributeFinish at h
+      obtain ⟨L2, h2, h⟩ := bind_ok h
+      obtain rfl := Except.ok.inj h
+      obtain ⟨_, rfl⟩ := subFromTotal_ok h2
+      intro e he
+      unfold putCommitteeData at he
+      dsimp only at he
+      split at he
+      · simp only [List.mem_map] at he
+        obtain ⟨e0, he0, rfl⟩ := he
+        split
+        · exact Or.inr rfl
+        · exact Or.inl (by rw [← hcd]; exact he0)
+      · simp only [List.mem_append, List.mem_singleton] at he
+        rcases he with he | rfl
+        · exact Or.inl (by rw [← hcd]; exact he)
+        · exact Or.inr rfl
+
+/-- `DistributeCommitteeRewards`: pays at most the pools and burns the remainders; afterwards `PercentsOK` still holds -/
+theorem distributeCommitteeRewards_burns {L L' : Ledger} (hi : InvSupply L) (hp : PercentsOK L)
+    (h : distributeCommitteeRewards L = .ok L') : Burns L L' ∧ PercentsOK L' := by
+  unfold distributeCommitteeRewards at h
+  have key : ∀ (ds : List CommitteeData) (A B : Ledger), (∀ d ∈ ds, percentSum d.percents ≤ 100 * d.samples) → InvSupply A →
+      (∀ e ∈ A.committeesData, e ∈ L.committeesData ∨ e.percents = []) → ds.foldlM distributeFor A = .ok B →
+      Burns A B ∧ (∀ e ∈ B.committeesData, e ∈ L.committeesData ∨ e.percents = []) := by
+    intro ds
+    induction ds with
+    | nil => intro A B _ _ hA h; obtain rfl := Except.ok.inj h; exact ⟨Burns.refl A, hA⟩
+    | cons d ds ih =>
+      intro A B hds iA hA h
+      simp only [List.foldlM_cons] at h
+      obtain ⟨A1, h1, h2⟩ := bind_ok h
+      have b1 := distributeFor_burns iA (hds d (List.mem_cons_self ..)) h1
+      have hA1 : ∀ e ∈ A1.committeesData, e ∈ L.committeesData ∨ e.percents = [] := by
+        intro e he
+        rcases distributeFor_committeesData h1 e he with h' | h'
+        · exact hA e h'
+        · exact Or.inr h'
+      obtain ⟨b2, hB⟩ := ih A1 B (fun d hd => hds d (List.mem_cons_of_mem _ hd)) (b1.inv iA) hA1 h2
+      exact ⟨b1.trans b2, hB⟩
+  obtain ⟨b, hB⟩ := key L.committeesData L L' hp hi (fun e he => Or.inl he) h
+  refine ⟨b, ?_⟩
+  intro e he
+  rcases hB e he with h' | h'
+  · exact hp e h'
+  · rw [h']; simp [percentSum]
+
 end Canopy.Ledger
